@@ -50,7 +50,7 @@ def kindOps (k : String) : Option KindOps :=
   else if k = "bool" then
     some (prim (fun a b => decide (bytesToNat a > bytesToNat b)) noNan (fun a b => decide (bytesToNat a ≤ bytesToNat b)))
   else if k = "decba" then
-    some { gt := compareGreaterByteArrayDecimals, nan := noNan, truncStats := true, truncIndex := true, utf8 := false,
+    some { gt := compareGreaterByteArrayDecimals, nan := noNan, truncStats := false, truncIndex := false, utf8 := false,
            specLe := fun a b => decide (decimalValue a ≤ decimalValue b) }
   else if k.startsWith "decflba" then
     some { gt := compareGreaterByteArrayDecimals, nan := noNan, truncStats := false, truncIndex := false, utf8 := false,
